@@ -175,6 +175,17 @@ def make_state(rng, workdir, kind, nfaults=None, world_kw=None, fault_classes=No
     if w["rejected"]:
         return None
     st = {"img": w["img"], "cfg": w["cfg"], "kind": kind, "details": {}, "faults": [], "world": w}
+    if rng.chance(0.5):
+        # inode generations as the kernel hands them out (debugfs and mke2fs leave 0 in every inode): the checksums of an
+        # inode's extent and directory blocks are keyed to its generation
+        try:
+            import reffaults
+            new, n = reffaults.randomize_generations(rng, open(w["img"], "rb").read())
+            with open(w["img"], "wb") as f:
+                f.write(new)
+            st["details"]["generations"] = n
+        except Exception as ex:
+            st["details"]["generations_error"] = repr(ex)
     if kind in ("journal", "journal+faults"):
         st["details"]["journal"] = add_pending_journal(rng, w, workdir)
     if kind == "orphan":
